@@ -70,6 +70,7 @@ let handle = function
   | ["dec64"; a] -> dec c18_dec64 c18_spec_dec64 a
   | ["dec32"; a] -> dec c18_dec32 c18_spec_dec32 a
   | ["dec16"; a] -> dec c18_dec16 c18_spec_dec16 a
+  | ["decv16"; a] -> dec c18_dec16 c18_spec_dec16 a
   | ["push64"; a] -> push c18_push64 a
   | ["push32"; a] -> push c18_push32 a
   | ["push16"; a] -> push c18_push16 a
